@@ -66,6 +66,13 @@ MUTANTS = [
     ('enum-encode-passes-unknown', 'C13', CORE, "            return self.encmapping[obj]\n        except KeyError:\n            raise MappingError(\"building failed, no mapping for %r\" % (obj,), path=path)", "            return self.encmapping.get(obj, obj)\n        except KeyError:\n            raise MappingError(\"building failed, no mapping for %r\" % (obj,), path=path)"),
     ('enum-decode-clamps', 'C13', CORE, "            return EnumInteger(obj)", "            return EnumInteger(obj & 0xffffffff)"),
     ('const-parse-noteq', 'C13', CORE, "        if not obj == self.value:\n            raise ConstError(f\"parsing expected", "        if obj == self.value and False:\n            raise ConstError(f\"parsing expected"),
+    ('struct-params', 'C07', CORE, "        obj = Container()\n        obj._io = stream\n        context = Container(_ = context, _params = context._params, _root = None, _parsing = context._parsing, _building = context._building, _sizing = context._sizing, _subcons = self._subcons, _io = stream, _index = context.get(\"_index\", None))", "        obj = Container()\n        obj._io = stream\n        context = Container(_ = context, _params = context, _root = None, _parsing = context._parsing, _building = context._building, _sizing = context._sizing, _subcons = self._subcons, _io = stream, _index = context.get(\"_index\", None))"),
+    ('struct-root', 'C07', CORE, "        obj._io = stream\n        context = Container(_ = context, _params = context._params, _root = None, _parsing = context._parsing, _building = context._building, _sizing = context._sizing, _subcons = self._subcons, _io = stream, _index = context.get(\"_index\", None))\n        context._root = context._.get(\"_root\", context)",
+     "        obj._io = stream\n        context = Container(_ = context, _params = context._params, _root = None, _parsing = context._parsing, _building = context._building, _sizing = context._sizing, _subcons = self._subcons, _io = stream, _index = context.get(\"_index\", None))\n        context._root = context._"),
+    ('struct-noindex', 'C07', CORE, "        obj = Container()\n        obj._io = stream\n        context = Container(_ = context, _params = context._params, _root = None, _parsing = context._parsing, _building = context._building, _sizing = context._sizing, _subcons = self._subcons, _io = stream, _index = context.get(\"_index\", None))", "        obj = Container()\n        obj._io = stream\n        context = Container(_ = context, _params = context._params, _root = None, _parsing = context._parsing, _building = context._building, _sizing = context._sizing, _subcons = self._subcons, _io = stream, _index = None)"),
+    ('struct-ctx-not-updated', 'C07', CORE, "                    obj[sc.name] = subobj\n                    context[sc.name] = subobj\n            except StopFieldError:\n                break\n        return obj\n\n    def _build(self, obj, stream, context, path):\n        if obj is None:\n            obj = Container()",
+     "                    obj[sc.name] = subobj\n            except StopFieldError:\n                break\n        return obj\n\n    def _build(self, obj, stream, context, path):\n        if obj is None:\n            obj = Container()"),
+    ('struct-flag-swapped', 'C07', CORE, "        obj = Container()\n        obj._io = stream\n        context = Container(_ = context, _params = context._params, _root = None, _parsing = context._parsing, _building = context._building, _sizing = context._sizing, _subcons = self._subcons, _io = stream, _index = context.get(\"_index\", None))", "        obj = Container()\n        obj._io = stream\n        context = Container(_ = context, _params = context._params, _root = None, _parsing = context._building, _building = context._parsing, _sizing = context._sizing, _subcons = self._subcons, _io = stream, _index = context.get(\"_index\", None))"),
     ('sbib-order', 'C10', BIN, "for i in reversed(range(0,len(data),8)))", "for i in range(0,len(data),8))"),
     ('b2b-mod', 'C10', BIN, "if len(data) % 8 != 0:\n        raise ValueError(f\"data length {len(data)} must be", "if len(data) % 4 != 0:\n        raise ValueError(f\"data length {len(data)} must be"),
 ]
